@@ -59,7 +59,7 @@ OPTION_SWITCHES = ('default-structured',)
 
 def bounds(tier):
     return {'tier': tier,
-            'layers': ('L0,L0c,L1(W2,K2),L2,families; environments EXPLICIT, AUTOMATIC' if tier == 'quick'
+            'layers': ('L0,L0c,L2,families under EXPLICIT and AUTOMATIC; L1(W2,K2) EXPLICIT, L1(W2,K1) AUTOMATIC' if tier == 'quick'
                        else 'L0,L0c,L1(W3,K2),L2,families; 5 environments') + '; extra C05 terms in '
                       + ('EXPLICIT, AUTOMATIC' if tier == 'quick' else 'EXPLICIT, IMPLICIT, AUTOMATIC, EXPLICIT+EI, AUTOMATIC+EI'),
             'value_deviation_k': 2, 'codecs': list(CODECS),
